@@ -3,8 +3,11 @@
 Each entry: (property, id, file, find, replace, expected rule, why, source)."""
 import json, os, collections
 M = []
-def m(prop, id, file, find, replace, expect, why, source="design"):
-    M.append(dict(prop=prop, id=id, file=file, find=find, replace=replace, expect=expect, why=why, source=source))
+def m(prop, id, file, find, replace, expect, why, source="design", more=None):
+    d = dict(prop=prop, id=id, file=file, find=find, replace=replace, expect=expect, why=why, source=source)
+    if more:
+        d["more"] = [dict(find=f, replace=r) for f, r in more]
+    M.append(d)
 
 FSM = "channels/channels_fsm.go"
 EV = "impl/events.go"
@@ -863,6 +866,49 @@ m("C16", "store-not-unregistered", GS,
   "	if c.hasStore() {\n		// Unregister the channel's store from graphsync",
   "	if c.hasStore() && c.isOpen {\n		// Unregister the channel's store from graphsync",
   "C16.3", "store of a never-opened channel outlives the channel")
+
+# ---------------- C20
+TO = "transportoptions/transportoptions.go"
+m("C20", "shutdown-holds-channels-lock", GS,
+  "	t.dtChannelsLk.RLock()\n	dtChannels := make([]*dtChannel, 0, len(t.dtChannels))\n	for _, ch := range t.dtChannels {\n		dtChannels = append(dtChannels, ch)\n	}\n	t.dtChannelsLk.RUnlock()\n",
+  "	t.dtChannelsLk.RLock()\n	defer t.dtChannelsLk.RUnlock()\n	dtChannels := make([]*dtChannel, 0, len(t.dtChannels))\n	for _, ch := range t.dtChannels {\n		dtChannels = append(dtChannels, ch)\n	}\n",
+  "C20.3", "Shutdown waits for channels while holding the channels lock (defect D9)")
+m("C20", "cleanup-under-channels-lock", GS,
+  "	t.dtChannelsLk.Lock()\n\n	ch, ok := t.dtChannels[chid]\n	if ok {\n		// Remove the reference to the channel from the channels map\n		delete(t.dtChannels, chid)\n	}\n\n	t.dtChannelsLk.Unlock()\n\n	// Clean up the channel\n	if ok {\n		ch.cleanup()\n	}",
+  "	t.dtChannelsLk.Lock()\n	defer t.dtChannelsLk.Unlock()\n\n	ch, ok := t.dtChannels[chid]\n	if !ok {\n		return\n	}\n	// Remove the reference to the channel from the channels map\n	delete(t.dtChannels, chid)\n\n	// Clean up the channel\n	ch.cleanup()",
+  "C20.3", "lock-order inversion dtChannelsLk → dtChannel.lk against the request hook", "seeded/C20a")
+m("C20", "progress-entry-shared-by-pointer", CA,
+  "	values map[datatransfer.ChannelID]progressState\n",
+  "	values map[datatransfer.ChannelID]*progressState\n",
+  "C20.1", "cached limit read without the lock once entries are shared by pointer", "seeded/C20b",
+  more=[("		values: make(map[datatransfer.ChannelID]progressState),", "		values: make(map[datatransfer.ChannelID]*progressState),"),
+        ("func (pc *progressCache) getValue(chid datatransfer.ChannelID, readProgress readProgressFn) (progressState, error) {", "func (pc *progressCache) getValue(chid datatransfer.ChannelID, readProgress readProgressFn) (*progressState, error) {"),
+        ("		return progressState{}, err\n	}\n	newValue := progressState{", "		return nil, err\n	}\n	newValue := &progressState{"),
+        ("	value, ok = pc.values[chid]\n	if !ok {\n		return\n	}\n	value.dataLimit = newLimit\n	pc.values[chid] = value", "	value.dataLimit = newLimit")])
+m("C20", "requestid-read-unlocked", GS,
+  "func (c *dtChannel) pause(ctx context.Context) error {\n	c.lk.Lock()\n	defer c.lk.Unlock()\n",
+  "func (c *dtChannel) pause(ctx context.Context) error {\n",
+  "C20.1", "pause reads the channel's request state without the channel lock")
+m("C20", "options-read-unlocked", TO,
+  "	to.optionsLk.RLock()\n	defer to.optionsLk.RUnlock()\n	options, ok := to.options[chid]",
+  "	options, ok := to.options[chid]",
+  "C20.1", "transport options read without their lock")
+m("C20", "monitor-counter-unlocked", "channelmonitor/channelmonitor.go",
+  "func (mc *monitoredChannel) resetConsecutiveRestarts() {\n	mc.restartLk.Lock()\n	defer mc.restartLk.Unlock()\n",
+  "func (mc *monitoredChannel) resetConsecutiveRestarts() {\n",
+  "C20.1", "restart counter reset without its lock")
+m("C20", "cancel-called-unlocked", GS,
+  "	// Cancel the graphsync request\n	c.lk.Lock()\n	errch := c.cancel(ctx)\n	c.lk.Unlock()",
+  "	// Cancel the graphsync request\n	errch := c.cancel(ctx)",
+  "C20.1", "cancel (contract: under the lock) called without it")
+m("C20", "nonatomic-cache-word", CA,
+  "		currentIndex := atomic.LoadInt64(value)",
+  "		currentIndex := *value",
+  "C20.2", "high-water mark read non-atomically")
+m("C20", "close-nil-errch", GS,
+  "	if errch == nil {\n		return nil\n	}\n",
+  "",
+  "C20.5", "close blocks on a nil channel")
 
 by = collections.defaultdict(list)
 for x in M:
